@@ -27,6 +27,18 @@ def tlc_models(ctx):
         ctx.add("transitions", r.generated)
 
 
+def _complete_lines(path):
+    """drop a last line cut short by a crash of the run (the run's status is judged separately)"""
+    if not os.path.exists(path):
+        open(path, "w").close()
+    data = open(path, "rb").read()
+    if data and not data.endswith(b"\n"):
+        data = data[:data.rfind(b"\n") + 1]
+        open(path, "wb").write(data)
+    if not data.strip():
+        open(path, "w").write('{"e":"Reset","x":0}\n')
+
+
 def ring1(ctx, b):
     prog = build.compile_prog("sched", "pool_drv", ["pool_drv.c", "vs_sched.c"], extra_flags=["-I", os.path.join(build.REPO, "mtbl")])
     wd = ctx.sub("ring1")
@@ -42,6 +54,7 @@ def ring1(ctx, b):
                                    stdout=subprocess.PIPE, stderr=subprocess.PIPE, text=True, timeout=600)
                 ctx.add("schedules", runs)
                 ctx.add("pool_configs", 1)
+                _complete_lines(out)
                 ok, depth, r = core.validate_trace(out, "Trace_Pool", timeout=900)
                 ctx.add("trace_events", sum(1 for _ in open(out)))
                 cfgd = {"max": P, "jobs": J, "clients": NC, "ordered": ["no", "yes", "client 1 only"][ordered], "mode": mode, "npreempt": npre, "spurious_pct": sp, "seed0": seed0, "caller_threads": NC if conc else 1}
@@ -67,6 +80,51 @@ def ring1(ctx, b):
                 os.unlink(out)
 
 
+def ring1_wide(ctx, b):
+    """a pool of 260 threads with 260 jobs outstanding at once (counters and queues beyond 255 / 256 elements): the dispatcher runs
+    ahead of the workers (preemption-bounded schedules keep the running thread), ordered and unordered"""
+    prog = build.compile_prog("sched", "pool_drv", ["pool_drv.c", "vs_sched.c"], extra_flags=["-I", os.path.join(build.REPO, "mtbl")])
+    wd = ctx.sub("ring1w")
+    runs = 4 if ctx.quick() else 40
+    for n, (P, J, ordered, mode, npre) in enumerate([(260, 260, 0, 2, 0), (260, 260, 1, 2, 0), (260, 260, 0, 1, 1), (260, 300, 0, 0, 0)]):
+        out = os.path.join(wd, "w%d.ndjson" % n)
+        seed0 = ctx.seed % 100000 + 977 * n
+        if mode == 2:
+            # no preemption at all, three fixed policies at blocking points (lowest thread first = the result handler before the
+            # workers: it empties its queue as soon as anything is in it)
+            p = subprocess.run([prog, out, "systematic", str(P), str(J), str(ordered), "1", "0", "0"], stdout=subprocess.PIPE, stderr=subprocess.PIPE, text=True, timeout=1200)
+        else:
+            p = subprocess.run([prog, out, str(P), str(J), str(ordered), "1", str(runs), str(seed0), "0", str(mode), str(npre), "0"],
+                               stdout=subprocess.PIPE, stderr=subprocess.PIPE, text=True, timeout=1200)
+        ctx.add("schedules", runs if mode != 2 else 3)
+        ok, depth = False, 0
+        if p.returncode == 0 and os.path.exists(out) and os.path.getsize(out) > 0:
+            ok, depth, r = core.validate_trace(out, "Trace_Pool", timeout=900)
+        cfgd = {"max": P, "jobs": J, "clients": 1, "ordered": ["no", "yes"][ordered], "mode": mode, "npreempt": npre, "seed0": seed0}
+        if p.returncode != 0 or not ok:
+            recs = []
+            for x in (open(out) if os.path.exists(out) else []):
+                try:
+                    recs.append(json.loads(x))
+                except ValueError:
+                    pass
+            ex = core.split_execs(recs)
+            last = ex[-1] if ex else []
+            if p.returncode == 0 and not ok:
+                acc = 0
+                for e in ex:
+                    if acc + len(e) >= depth:
+                        last = e
+                        break
+                    acc += len(e)
+            why = "scheduler verdict: deadlock (no thread enabled)" if p.returncode == 3 else ("pool run ended with status %s: %s" % (p.returncode, p.stderr[-300:]) if p.returncode != 0 else "events not explained by PoolAbs at line %s" % depth)
+            core.report(ctx, "thread pool %s: %s" % (json.dumps(cfgd), why), {"kind": "trace", "module": "Trace_Pool", "trace": last[-400:], "line": len(last[-400:]), "cfg": cfgd})
+        else:
+            ctx.add("traces_validated_against_impl", runs)
+        if os.path.exists(out):
+            os.unlink(out)
+
+
 def ring1_systematic(ctx, b):
     """every schedule with at most `bound` preemptions (under three fixed policies for the choices at blocking points)"""
     prog = build.compile_prog("sched", "pool_drv", ["pool_drv.c", "vs_sched.c"], extra_flags=["-I", os.path.join(build.REPO, "mtbl")])
@@ -83,6 +141,7 @@ def ring1_systematic(ctx, b):
         ctx.add("schedules", nsch)
         ctx.add("systematic_schedules", nsch)
         cfgd = {"max": P, "jobs": J, "clients": NC, "ordered": ["no", "yes", "client 1 only"][ordered], "preemption_bound": bound, "caller_threads": NC if conc else 1}
+        _complete_lines(out)
         ok, depth, r = core.validate_trace(out, "Trace_Pool", timeout=3000)
         if p.returncode != 0 or not ok:
             recs = [json.loads(x) for x in open(out)]
@@ -158,6 +217,7 @@ def ring1_model_replay(ctx, b):
         if p.returncode not in (0, 4):
             core.report(ctx, "thread pool under a model behaviour's lock order (pool %d, jobs %d, ordered %s) ended with status %s: %s" % (MT, J, ordered, p.returncode, p.stderr[-300:]),
                         {"kind": "abnormal", "why": "status %s" % p.returncode, "stderr": p.stderr[-1500:]})
+        _complete_lines(out)
         ok, depth, rr = core.validate_trace(out, "Trace_Pool", timeout=1800)
         if not ok:
             acc, last = 0, []
@@ -454,7 +514,11 @@ def ring3(ctx, b):
                 key = rng.choice([b"", b"a", b"ab", b"b", b"c"])
                 L.append("s_add 0 %s T%d,%d" % (shapes.hexs(key), tok, tok + 1))
                 tok += 2
-            L += ["s_iter 0 1", "it_drain 1", "it_destroy 1", "s_destroy 0", "pool_destroy 0", "---"]
+            if k % 3 == 2:
+                # destroyed without ever being iterated or written, chunk jobs possibly still in flight: must return as well
+                L += ["s_destroy 0", "pool_destroy 0", "---"]
+            else:
+                L += ["s_iter 0 1", "it_drain 1", "it_destroy 1", "s_destroy 0", "pool_destroy 0", "---"]
             lines += L
         seed0 = ctx.seed % 100000 + 50000 + P
         lg = os.path.join(wd, "steps.log")
@@ -529,6 +593,7 @@ def run(ctx):
     b = build.build("sched")
     tlc_models(ctx)
     ring1(ctx, b)
+    ring1_wide(ctx, b)
     ring1_systematic(ctx, b)
     ring1_model_replay(ctx, b)
     ring1_steps(ctx, b)
